@@ -78,6 +78,8 @@ def _lambda_quant(interp, args, node, is_forall):
     names = [a.arg for a in lam.node.args.args]
     bvs, vals = [], []
     for nm, ty in zip(names, tys):
+        if isinstance(ty, VFunc) and ty.kind == "spec":
+            ty = SPEC[ty.name](interp, [], {}, node)
         t = ty.data if isinstance(ty, VFunc) and ty.kind == "spectype" else None
         if t is None:
             raise Unsupported("forall/exists: type expected")
@@ -120,7 +122,9 @@ def bag_contains(interp, bag, item):
     parts = []
     for s in bag.sites:
         s2 = s.rename(interp.ctx)
-        body = z3.And(s2.cond, interp.veq(s2.elem, item))
+        eq = interp.veq(s2.elem, item)
+        inner = z3.ForAll(s2.hvars, z3.Implies(s2.cond_h, eq)) if s2.hvars else eq
+        body = z3.And(s2.cond, inner)
         parts.append(z3.Exists(s2.bvars, body) if s2.bvars else body)
     return z3.Or(*parts) if parts else z3.BoolVal(False)
 
@@ -142,8 +146,12 @@ def _forall_in(interp, args, kwargs, node):
     parts = []
     for s in bag.sites:
         s2 = s.rename(interp.ctx)
-        body = z3.Implies(s2.cond, B(interp, interp.call(lam, [s2.elem], {}, node)))
-        parts.append(z3.ForAll(s2.bvars, body) if s2.bvars else body)
+        interp.ctx.spec_hyps.append(s2.full_cond())
+        try:
+            body = z3.Implies(s2.full_cond(), B(interp, interp.call(lam, [s2.elem], {}, node)))
+        finally:
+            interp.ctx.spec_hyps.pop()
+        parts.append(z3.ForAll(s2.all_vars(), body) if s2.all_vars() else body)
     return VBool(z3.And(*parts) if parts else z3.BoolVal(True))
 
 
@@ -154,7 +162,9 @@ def _exists_in(interp, args, kwargs, node):
     parts = []
     for s in bag.sites:
         s2 = s.rename(interp.ctx)
-        body = z3.And(s2.cond, B(interp, interp.call(lam, [s2.elem], {}, node)))
+        p = B(interp, interp.call(lam, [s2.elem], {}, node))
+        inner = z3.ForAll(s2.hvars, z3.Implies(s2.cond_h, p)) if s2.hvars else p
+        body = z3.And(s2.cond, inner)
         parts.append(z3.Exists(s2.bvars, body) if s2.bvars else body)
     return VBool(z3.Or(*parts) if parts else z3.BoolVal(False))
 
@@ -179,10 +189,10 @@ def _no_duplicates(interp, args, kwargs, node):
                 if not a.bvars:
                     continue
                 eqv = z3.And(*[_bv_eq(x, y, a, interp) for x, y in zip(a.bvars, b.bvars)])
-                body = z3.Implies(z3.And(a.cond, b.cond, same), eqv)
+                body = z3.Implies(z3.And(a.full_cond(), b.full_cond(), same), eqv)
             else:
-                body = z3.Implies(z3.And(a.cond, b.cond), z3.Not(same))
-            vs = a.bvars + b.bvars
+                body = z3.Implies(z3.And(a.full_cond(), b.full_cond()), z3.Not(same))
+            vs = a.all_vars() + b.all_vars()
             parts.append(z3.ForAll(vs, body) if vs else body)
     return VBool(z3.And(*parts) if parts else z3.BoolVal(True))
 
@@ -309,6 +319,9 @@ def apply_uf(interp, fv, args, node):
     f = fv.data["fun"]
     ts = []
     for a, at in zip(args, ft.arg_types):
+        if isinstance(at, T.StrT) and isinstance(a, VObj) and a.tag == "anyelem":
+            ts.append(a.sterm)      # only reached after the element was checked to be a string
+            continue
         if isinstance(at, T.StrT) and not isinstance(a, VStr):
             raise Unsupported(f"uninterpreted callable applied to {a!r}")
         ts.append(a.term if not isinstance(at, T.RealT) else to_real(a))
@@ -629,3 +642,165 @@ def _post(interp, args, kwargs, node):
     bound.update(kwargs)
     env = c.spec_env(interp, bound)
     return c.eval_spec(interp, c.returns_expr.expr, env)
+
+
+@spec("isbool")
+def _isbool(interp, args, kwargs, node):
+    return VBool(isinstance(args[0], VBool))
+
+
+@spec("isstr")
+def _isstr(interp, args, kwargs, node):
+    return VBool(isinstance(args[0], VStr))
+
+
+@spec("isnumber")
+def _isnumber(interp, args, kwargs, node):
+    return VBool(isinstance(args[0], (VInt, VReal, VNan, VInf)) and not isinstance(args[0], VBool))
+
+
+@spec("all_chars_in")
+def _all_chars_in(interp, args, kwargs, node):
+    s, alpha = args
+    k = z3.Int("k!ac")
+    letters = concrete_str(alpha)
+    ch = z3.SubString(s.term, k, 1)
+    return VBool(z3.ForAll([k], z3.Implies(z3.And(k >= 0, k < z3.Length(s.term)),
+                                           z3.Or(*[z3.StringVal(c) == ch for c in letters]))))
+
+
+@spec("is_list")
+def _is_list(interp, args, kwargs, node):
+    return VBool(isinstance(args[0], VList) and args[0].kind == "list")
+
+
+@spec("same_elements")
+def _same_elements(interp, args, kwargs, node):
+    """the two ordered collections hold the same elements position by position (under some enumeration of a set)"""
+    a, b = args
+    if a is b:
+        return VBool(True)
+    from . import externs
+    va, vb = externs.ordered_view(interp, a, node), externs.ordered_view(interp, b, node)
+    if va is None or vb is None:
+        raise Unsupported("same_elements on unordered collections")
+    k = interp.ctx.fresh("k", z3.IntSort())
+    return VBool(z3.And(va[0] == vb[0], z3.ForAll([k], z3.Implies(z3.And(k >= 0, k < va[0]),
+                                                                   interp.veq(va[1](k), vb[1](k))))))
+
+
+# ----------------------------------------------------------------------------- membership with witness hints
+
+@spec("member")
+def _member(interp, args, kwargs, node):
+    """member(collection, y, h1, h2, ...): y is produced by some emitting site of the collection.
+    With hints, the site's generator variables are instantiated positionally by the hint terms
+    (quantifier-free; sound: an explicit witness); without hints the existential is left to the solver."""
+    coll, y = args[0], args[1]
+    hints = args[2:]
+    bag = bag_of(interp, coll)
+    if not hints:
+        return VBool(bag_contains(interp, bag, y))
+    parts = []
+    for s in bag.sites:
+        if len(s.bvars) != len(hints):
+            continue
+        sub = []
+        ok = True
+        for bv, h in zip(s.bvars, hints):
+            ht = getattr(h, "term", None)
+            if ht is None or ht.sort() != bv.sort():
+                ok = False
+                break
+            sub.append((bv, ht))
+        if not ok:
+            continue
+        s2 = s.rename(interp.ctx) if s.hvars else s
+        sub = [(bv2, ht) for (bv2, (_, ht)) in zip(s2.bvars, sub)]
+        cond = z3.substitute(s2.cond, *sub)
+        eq = interp.veq(vsubst(s2.elem, sub), y)
+        if s2.hvars:
+            eq = z3.ForAll(s2.hvars, z3.Implies(z3.substitute(s2.cond_h, *sub), eq))
+        parts.append(z3.And(cond, eq))
+    return VBool(z3.Or(*parts) if parts else z3.BoolVal(False))
+
+
+@spec("delete_at")
+def _delete_at(interp, args, kwargs, node):
+    x, i = args
+    it = to_int(i)
+    return VStr(z3.Concat(z3.SubString(x.term, 0, it), z3.SubString(x.term, it + 1, z3.Length(x.term) - it - 1)))
+
+
+@spec("sub_at")
+def _sub_at(interp, args, kwargs, node):
+    x, i, a = args
+    it = to_int(i)
+    return VStr(z3.Concat(z3.SubString(x.term, 0, it), a.term, z3.SubString(x.term, it + 1, z3.Length(x.term) - it - 1)))
+
+
+@spec("ins_at")
+def _ins_at(interp, args, kwargs, node):
+    x, i, a = args
+    it = to_int(i)
+    return VStr(z3.Concat(z3.SubString(x.term, 0, it), a.term, z3.SubString(x.term, it, z3.Length(x.term) - it)))
+
+
+@spec("char_at")
+def _char_at(interp, args, kwargs, node):
+    return VStr(z3.SubString(args[0].term, to_int(args[1]), 1))
+
+
+def _recfun(name, sorts, rsort, build):
+    """memoised z3 RecFunction (define-fun-rec)"""
+    key = name
+    if key in _RECFUNS:
+        return _RECFUNS[key]
+    f = z3.RecFunction(name, *(sorts + [rsort]))
+    vs = [z3.Const(f"{name}!a{i}", s) for i, s in enumerate(sorts)]
+    z3.RecAddDefinition(f, vs, build(f, *vs))
+    _RECFUNS[key] = f
+    return f
+
+
+_RECFUNS = {}
+
+
+@spec("runstart")
+def _runstart(interp, args, kwargs, node):
+    """first position of the run of equal letters that ends at position i of x"""
+    x, i = args
+    f = _recfun("runstart", [z3.StringSort(), z3.IntSort()], z3.IntSort(),
+                lambda f, s, k: z3.If(z3.And(k > 0, z3.SubString(s, k, 1) == z3.SubString(s, k - 1, 1)), f(s, k - 1), k))
+    return VInt(f(x.term, to_int(i)))
+
+
+@spec("insstart")
+def _insstart(interp, args, kwargs, node):
+    """smallest insertion position giving the same string as inserting letter a at position i of x"""
+    x, i, a = args
+    f = _recfun("insstart", [z3.StringSort(), z3.IntSort(), z3.StringSort()], z3.IntSort(),
+                lambda f, s, k, c: z3.If(z3.And(k > 0, c == z3.SubString(s, k - 1, 1)), f(s, k - 1, c), k))
+    return VInt(f(x.term, to_int(i), a.term))
+
+
+@spec("by_induction")
+def _by_induction(interp, args, kwargs, node):
+    """by_induction(lambda i: P(i)):  in a `lemma` being proved this is the induction schema
+    P(0) and (forall i >= 1: P(i-1) => P(i)); where the lemma is used it is forall i >= 0: P(i)."""
+    lam = args[0]
+    i = interp.ctx.fresh("i_ind", z3.IntSort())
+    Pi = B(interp, interp.call(lam, [VInt(i)], {}, node))
+    if getattr(interp, "lemma_mode", "use") == "prove":
+        P0 = B(interp, interp.call(lam, [VInt(0)], {}, node))
+        Pprev = B(interp, interp.call(lam, [VInt(i - 1)], {}, node))
+        return VBool(z3.And(P0, z3.ForAll([i], z3.Implies(z3.And(i >= 1, Pprev), Pi))))
+    return VBool(z3.ForAll([i], z3.Implies(i >= 0, Pi)))
+
+
+@spec("distinct_letters")
+def _distinct_letters(interp, args, kwargs, node):
+    a = args[0].term
+    i, j = z3.Int("i!dl"), z3.Int("j!dl")
+    return VBool(z3.ForAll([i, j], z3.Implies(z3.And(0 <= i, i < j, j < z3.Length(a)),
+                                              z3.SubString(a, i, 1) != z3.SubString(a, j, 1))))
